@@ -217,7 +217,7 @@ fn lexi_x_to_9(x: &str, incl: bool) -> Result<String> {
             Ok(mk_or(parts))
         }
     } else if x.is_empty() {
-        Ok("[0-9]*[1-9]".to_string())
+        Ok("[0-9]*[1-9][0-9]*".to_string())
     } else {
         let x0 = x
             .chars()
@@ -241,9 +241,16 @@ fn lexi_x_to_9(x: &str, incl: bool) -> Result<String> {
 }
 
 fn lexi_0_to_x(x: &str, incl: bool) -> Result<String> {
+    lexi_0_to_x_inner(x, incl, false)
+}
+
+// Digit strings that, read as a fraction, are <= x (incl) or < x (!incl); x has no trailing zeros.
+// `after_digit` is set when at least one fraction digit precedes this position: the fraction may
+// then end here (a proper prefix of x is smaller than x) or go on with zeros (equal to x).
+fn lexi_0_to_x_inner(x: &str, incl: bool, after_digit: bool) -> Result<String> {
     if x.is_empty() {
         if incl {
-            Ok("".to_string())
+            Ok(if after_digit { "0*" } else { "" }.to_string())
         } else {
             Err(anyhow!("Inclusive flag must be true for an empty string"))
         }
@@ -262,7 +269,8 @@ fn lexi_0_to_x(x: &str, incl: bool) -> Result<String> {
                     "x0 must be greater than 0 for non-inclusive single character"
                 ));
             }
-            return Ok(format!("[0-{}][0-9]*", x0 - 1));
+            let r = format!("[0-{}][0-9]*", x0 - 1);
+            return Ok(if after_digit { format!("({r})?") } else { r });
         }
 
         let mut parts = vec![format!(
@@ -270,12 +278,13 @@ fn lexi_0_to_x(x: &str, incl: bool) -> Result<String> {
             x.chars()
                 .next()
                 .ok_or_else(|| anyhow!("String x is unexpectedly empty"))?,
-            lexi_0_to_x(x_rest, incl)?
+            lexi_0_to_x_inner(x_rest, incl, true)?
         )];
         if x0 > 0 {
             parts.push(format!("[0-{}][0-9]*", x0 - 1));
         }
-        Ok(mk_or(parts))
+        let r = mk_or(parts);
+        Ok(if after_digit { format!("({r})?") } else { r })
     }
 }
 
@@ -336,7 +345,7 @@ fn lexi_range(ld: &str, rd: &str, ld_incl: bool, rd_incl: bool) -> Result<String
                     rd.chars()
                         .next()
                         .ok_or_else(|| anyhow!("rd is unexpectedly empty"))?,
-                    lexi_0_to_x(rd_rest, rd_incl)?
+                    lexi_0_to_x_inner(rd_rest, rd_incl, true)?
                 ));
             }
             Ok(mk_or(parts))
@@ -405,7 +414,10 @@ pub fn rx_float_range(
             }
             if left == right {
                 if left_inclusive && right_inclusive {
-                    Ok(format!("({})", escape(&float_to_str(left))))
+                    let s = float_to_str(left);
+                    // the same value may be written with trailing zeros
+                    let zeros = if s.contains('.') { "0*" } else { "(\\.0+)?" };
+                    Ok(format!("({}{})", escape(&s), zeros))
                 } else {
                     Err(anyhow!(
                         "Empty range when left equals right and not both inclusive"
